@@ -788,6 +788,16 @@ func genC14(t *rapid.T) ContractCase {
 			}
 		}
 	}
+	if c.Mode == "gitdiff" && gen.Chance(t, "unrenderable", 30) {
+		// a diff the requested format cannot express: the driver must fail like the diff mode does
+		k := gen.Pick(t, "unrenderableKey", []string{"-", "01", "1", "+1"})
+		c.A, c.B = val.JSON(map[string]val.V{k: 1.0, "z": 0.0}), val.JSON(map[string]val.V{k: 2.0, "z": 0.0})
+		c.Opts, c.Format = "list", "patch"
+		if gen.Chance(t, "setWithPatch", 40) {
+			c.A, c.B = "[1,2]", "[1,3]"
+			c.Opts = gen.Pick(t, "setOpts", []string{"set", "mset", "setkeys:id"})
+		}
+	}
 	c.Yaml = gen.Chance(t, "yaml", 25) || (hostile && gen.Chance(t, "yamlForHostile", 50))
 	if c.Yaml {
 		c.JdYaml = gen.Chance(t, "jdYaml", 50)
